@@ -601,12 +601,14 @@ open Mx.Router
     `C14.enable_by_user_requires`.) -/
 def routerAdminCaller : Router.Op → Option Router.Addr
   | .removePair c _ _ | .setCreation c _ | .setTemplate c | .pause c _ | .resume c _ | .setFeeOn c _ _
-  | .setFeeOff c _ _ _ | .configEnable c _ _ _ _ | .addCommon c _ | .removeCommon c _ => some c
+  | .setFeeOff c _ _ _ | .configEnable c _ _ _ _ | .addCommon c _ | .removeCommon c _
+  | .setTmpPeriod c _ | .clearTmp c | .upgradePair c _ _ => some c
   | _ => none
 
 /-- **role gating (router)**: removing a pair, enabling pair creation, setting the template,
     pausing / resuming a pair or the router itself, switching a pair's fee destinations, and the
-    three enable-by-user configuration calls succeed only for the router's owner -/
+    three enable-by-user configuration calls, and — `setTemporaryOwnerPeriod`,
+    `clearPairTemporaryOwnerStorage`, `upgradePair` — succeed only for the router's owner -/
 theorem router_admin_needs_owner (s : Router.St) (op : Router.Op) (c : Router.Addr)
     (r : Router.St × Router.Out) (hc : routerAdminCaller op = some c)
     (h : Router.step s op = some r) : c = s.owner := by
@@ -622,6 +624,9 @@ theorem router_admin_needs_owner (s : Router.St) (op : Router.Op) (c : Router.Ad
   · exact (configEnable_spec h).1
   · exact (addCommon_spec h).1
   · exact (removeCommon_spec h).1
+  · exact (setTmpPeriod_spec h).1
+  · exact (clearTmp_spec h).1
+  · exact (upgradePair_spec h).1
 
 /-- `createPair` succeeds only for the owner unless the owner enabled public pair creation -/
 theorem router_create_pair_role (s : Router.St) (c : Router.Addr) (t1 t2 : Router.Tok)
